@@ -234,16 +234,37 @@ func (c17) Run(u fw.Unit) fw.Result {
 					cur[k] = nil
 				}
 			}
+			wantBase := want
 			// run 0: rows back to back; run 1 (short sequences): 1.5 s of virtual time after every row - the
 			// default configuration has no STATETTL, so idle groups must keep their state
 			failed0 := false
-			for run := 0; run < 2; run++ {
+			onlyA := true
+			for _, x := range seq {
+				if x/len(c17Vals) != 0 {
+					onlyA = false
+				}
+			}
+			for run := 0; run < 3; run++ {
 				if run == 1 && (L > 3 || failed0) {
-					break // a failure that shows without pauses is reported once, under its own signature
+					continue // a failure that shows without pauses is reported once, under its own signature
+				}
+				if run == 2 && (!onlyA || failed0) {
+					continue
 				}
 				paused := ""
 				if run == 1 {
 					paused = "|paused-between-rows"
+				}
+				sql := sql
+				want := want
+				if run == 2 {
+					// the same rows without GROUP BY (one implicit group), aggregates written in upper case
+					paused = "|no-group-by"
+					sql = "SELECT COUNT(*) AS c, SUM(v) AS s, AVG(v) AS a FROM stream GLOBAL WINDOW TRIGGER WHEN " + p.SQL
+					want = nil
+					for _, w := range wantBase {
+						want = append(want, strings.TrimPrefix(w, "a"))
+					}
 				}
 			r := detExec(sql, detOpts{Eager: true, Horizon: 100 * vtime.Millisecond}, func(e *Env) {
 				for _, row := range rows {
@@ -302,7 +323,7 @@ func (c17) Run(u fw.Unit) fw.Result {
 func (c17) Describe(tier string) fw.Description {
 	return fw.Description{
 		Level: "model_checking",
-		Rule: "16 TRIGGER WHEN predicates (one comparison over count(*), count(v), sum, avg, min, max; AND / OR of two, also of the same aggregate twice; mixed AND-OR precedence; selected and unselected aggregates) x all row sequences of length 1..L over 2 groups x v in {1,2,3,NULL} on the real engine (eager deterministic schedule; sequences of length <= 3 also with 1.5 s of virtual time after every row); oracle: per group, fire exactly at the rows where the predicate holds on the aggregates since the last fire, result = count/sum/avg over exactly those rows plus the group column, then restart; non-trivial = at least one expected fire",
+		Rule: "16 TRIGGER WHEN predicates (one comparison over count(*), count(v), sum, avg, min, max; AND / OR of two, also of the same aggregate twice; mixed AND-OR precedence; selected and unselected aggregates) x all row sequences of length 1..L over 2 groups x v in {1,2,3,NULL} on the real engine (eager deterministic schedule; sequences of length <= 3 also with 1.5 s of virtual time after every row; single-group sequences also without GROUP BY and with upper-case aggregate names); oracle: per group, fire exactly at the rows where the predicate holds on the aggregates since the last fire, result = count/sum/avg over exactly those rows plus the group column, then restart; non-trivial = at least one expected fire",
 		Bounds:      map[string]any{"max_len": map[string]int{"quick": 4, "thorough": 6}, "groups": 2, "values": []string{"1", "2", "3", "NULL"}},
 		Assumptions: []string{"a predicate over an aggregate that is NULL (no usable input) is not true"},
 	}
